@@ -16,8 +16,8 @@ def c02_jobs(prop, tier, wd):
     n = 3 if tier == 'quick' else 5      # each function reads at most the token at the cursor and its predecessor
     sb = {'_Z1SR15ExtractionState': 'stub_exS', '_Z1DR15ExtractionState': 'stub_exD', '_Z2MDR15ExtractionState': 'stub_exMD', '_Z1AR15ExtractionState': 'stub_exA'}
     for e in ['harness_exS', 'harness_exD', 'harness_exMD', 'harness_exA', 'harness_extract_tail']:
-        J.append(fw.Job('extract.' + e, HB, e, tus=[], defines=['EX_N=%d' % n, 'MINISTL_STR_CAP=12', 'MINISTL_VEC_CAP=4', 'MINISTL_MAP_CAP=2', 'MINISTL_OPAQUE_CONCAT=1'], caps='caps_extract.hpp', unwind=4, tags=[prop, 'C09'], stubs=sb, native=False, timeout=400,
-                        ub_pat=r'^(_Z\\d|_ZN4Theo|_ZNSt|_ZNKSt|_ZSt)\\S*\\.(assertion|pointer_dereference|array_bounds)', extra=['--object-bits', '12'],
+        J.append(fw.Job('extract.' + e, HB, e, tus=[], defines=['EX_N=%d' % n, 'MINISTL_STR_CAP=12', 'MINISTL_VEC_CAP=4', 'MINISTL_MAP_CAP=2', 'MINISTL_OPAQUE_CONCAT=1'], caps='caps_extract.hpp', unwind=4, tags=[prop, 'C09'], stubs=sb, native=False, timeout=600 if tier == 'quick' else 1500,
+                        ub_pat=r'^(_Z\d|_ZN4Theo|_ZNSt|_ZNKSt|_ZSt)\S*\.(assertion|pointer_dereference|array_bounds)', extra=['--object-bits', '12'],
                         what='real %s of macro.cpp (macro extraction), every recursive call replaced by its contract stub, symbolic token window of <= %d tokens, symbolic cursor and construction stack: progress, stack discipline, result shape, error locations, no violated container precondition' % (e.replace('harness_ex', '').replace('harness_', ''), n),
                         bounds='token window <= %d tokens, cursor anywhere incl. past the end, <= 2 macros under construction; any number of tokens by the contracts' % n,
                         functions=['macro.cpp:' + e.replace('harness_ex', '').replace('harness_extract_tail', 'Theo::extract_macros')]))
